@@ -8,3 +8,5 @@ pub(crate) mod l1_dec_prim;
 pub(crate) mod l1_dec_pkt;
 pub(crate) mod refdec;
 pub(crate) mod l1_enc;
+pub(crate) mod refenc;
+pub(crate) mod l1_dec_wf;
